@@ -375,7 +375,7 @@ func WorkerMain(args []string) {
 	r := NewR(c, args[1])
 	r.IsWorker = true
 	if pv, st := Try(func() { c.RunShard(r, i, n) }); pv != nil {
-		r.HarnessError("worker %d/%d panicked: %v\n%s", i, n, pv, st)
+		r.HarnessError("worker %d/%d panicked: %v", i, n, pv); _ = st
 	}
 	b, _ := json.Marshal(r)
 	w := bufio.NewWriter(os.Stdout)
@@ -511,6 +511,20 @@ func (r *R) Finish() int {
 	for _, c := range r.Incomplete {
 		fmt.Println("  cap:", c)
 	}
+	for _, h := range r.HarnessErr {
+		fmt.Println("HARNESS-ERROR", r.ID, firstLine(h))
+	}
+	{
+		var sb strings.Builder
+		for _, u := range r.Viol {
+			tag := "NEW  "
+			if _, ok := known[u.Key]; ok {
+				tag = "KNOWN"
+			}
+			fmt.Fprintf(&sb, "%s %s\t%s\n", tag, u.Key, firstLine(u.Detail))
+		}
+		os.WriteFile(filepath.Join(VerifDir(), ".work", "last-"+r.ID+"-violations.txt"), []byte(sb.String()), 0o644)
+	}
 	if len(unknown) > 0 {
 		v := unknown[0]
 		h := sha256.Sum256([]byte(v.Key))
@@ -529,9 +543,6 @@ func (r *R) Finish() int {
 		return 1
 	}
 	if len(r.HarnessErr) > 0 {
-		for _, h := range r.HarnessErr {
-			fmt.Println("HARNESS-ERROR", r.ID, h)
-		}
 		return 2
 	}
 	return 0
